@@ -521,3 +521,201 @@ Proof.
         assert (consumed' = n) by lia. subst consumed'.
         apply Common; [split; [exact Kfull | exact I] | reflexivity | reflexivity | exact Hd | exact Full].
 Qed.
+
+(* ---------------------------------------------------------------- LZ4_compress_HC_continue(_destSize) *)
+Definition hs_effective (m : mem) (c : hsctx) (src n : Z) : option hcore :=
+  match hs_prelude m c src n with Some c1 => hs_pick c1 src n | None => None end.
+
+Lemma hs_continue_generic_eq m c src n cap lim :
+  hs_continue_generic m c src n cap lim =
+  if is_mid (k_level (hs_core c)) then
+    match hs_effective m c src n with Some ke => k_generic_mid m ke None src n cap lim | None => None end
+  else None.
+Proof.
+  unfold hs_continue_generic, hs_effective. destruct (is_mid (k_level (hs_core c))); [|reflexivity].
+  destruct (hs_prelude m c src n) as [c1|]; [apply hs_generic_eq | reflexivity].
+Qed.
+
+Lemma hs_effective_ready m c src n ke :
+  hs_ok c -> k_dirty (hs_core c) = false -> is_mid (k_level (hs_core c)) = true -> 0 < src -> 0 <= n ->
+  hs_effective m c src n = Some ke -> k_ready ke src.
+Proof.
+  intros K Hd Hl Hs Hn. unfold hs_effective.
+  destruct (hs_prelude m c src n) as [c1|] eqn:E; [|discriminate].
+  destruct (hs_prelude_ok m c src n c1 (conj K (conj Hd Hl)) Hs Hn E) as (P1 & R1 & _).
+  intros Hp. apply (hs_pick_ok c1 src n ke P1 R1 ltac:(lia) Hp).
+Qed.
+
+(* the statement of k_generic_mid_sound for a whole API call *)
+Definition call_post (m : mem) (ke : hcore) (src n cap : Z) (lim : outdir) (ret consumed : Z) (out : list Z) (hw : Z) (c' : hsctx) : Prop :=
+  hs_ok c' /\ hs_dctx c' = None /\ k_level (hs_core c') = k_level ke /\
+  hw <= hwlim lim n cap /\
+  (lim = NotLimited -> n <= LZ4_MAX_INPUT_SIZE -> 0 < ret) /\
+  (ret <= 0 -> k_dirty (hs_core c') = true \/ hs_core c' = ke) /\
+  (0 < ret ->
+   k_dirty (hs_core c') = false /\
+   ret = Z.of_nat (length out) /\ ret <= hw /\ 0 <= consumed <= n /\ (lim <> FillOutput -> consumed = n) /\
+   spec_decode (seg (k_vrd m ke) (k_lowLimit ke) (k_endIdx ke)) out = Some (load_list m src (Z.to_nat consumed)) /\
+   (lim <> FillOutput ->
+    strict_valid (seg (k_vrd m ke) (k_lowLimit ke) (k_endIdx ke)) out = Some (load_list m src (Z.to_nat consumed))) /\
+   after_call ke (hs_core c') src n consumed lim).
+
+Theorem hs_continue_generic_sound m c src n cap lim ret consumed out hw c' :
+  hmem_ok m -> hs_ok c -> k_dirty (hs_core c) = false -> 0 < src -> 0 <= n < 2147483648 -> 0 <= cap ->
+  hs_continue_generic m c src n cap lim = Some (HRes ret consumed out hw c') ->
+  exists ke, hs_effective m c src n = Some ke /\ k_ready ke src /\ is_mid (k_level (hs_core c)) = true /\
+             call_post m ke src n cap lim ret consumed out hw c'.
+Proof.
+  intros Hm K Hd Hs Hn Hcap. rewrite hs_continue_generic_eq.
+  destruct (is_mid (k_level (hs_core c))) eqn:Hl; [|discriminate].
+  destruct (hs_effective m c src n) as [ke|] eqn:Ee; [|discriminate].
+  intros Hg. exists ke. split; [reflexivity|].
+  pose proof (hs_effective_ready m c src n ke K Hd Hl Hs ltac:(lia) Ee) as R.
+  split; [exact R|]. split; [reflexivity|].
+  apply (k_generic_mid_sound m ke src n cap lim ret consumed out hw c' Hm R ltac:(lia) Hn Hcap Hg).
+Qed.
+
+(* LZ4_compress_HC_extStateHC_fastReset on a stream in any state: the parser runs on a freshly anchored context *)
+Theorem hs_fastReset_sound m c src n cap level ret consumed out hw c' :
+  hmem_ok m -> hs_ok c -> 0 < src -> 0 <= n < 2147483648 -> 0 <= cap ->
+  hs_fastReset m c src n cap level = Some (HRes ret consumed out hw c') ->
+  let lim := if cap <? compressBound n then LimitedOutput else NotLimited in
+  let ke := k_init_internal (hs_core (hs_resetFast c level)) src in
+  k_ready ke src /\ k_lowLimit ke = k_dictLimit ke /\ k_endIdx ke = k_dictLimit ke /\
+  call_post m ke src n cap lim ret consumed out hw c'.
+Proof.
+  intros Hm K Hs Hn Hcap. unfold hs_fastReset. cbv zeta.
+  destruct (hs_resetFast_ok c level K) as (K1 & D1 & X1).
+  destruct (is_mid (k_level (hs_core (hs_resetFast c level)))) eqn:Hl; [|discriminate].
+  rewrite hs_generic_eq. unfold hs_pick. cbn [hs_dctx hs_core]. rewrite X1. cbv zeta.
+  destruct K1 as (K1 & _).
+  pose proof (k_init_internal_ok (hs_core (hs_resetFast c level)) src K1 ltac:(lia)) as I0. cbv zeta in I0.
+  destruct I0 as (I1 & I2 & I3 & I4 & I5 & I6 & I7 & I8 & I9).
+  assert (R : k_ready (k_init_internal (hs_core (hs_resetFast c level)) src) src).
+  { unfold k_ready. split; [exact I1|]. split; [congruence|]. split; [exact I2|]. split; [unfold GB1, GB2, K64 in *; lia | exact I7]. }
+  intros Hg. split; [exact R|]. split; [exact I5|]. split; [exact I4|].
+  apply (k_generic_mid_sound m _ src n cap _ ret consumed out hw c' Hm R ltac:(lia) Hn Hcap Hg).
+Qed.
+
+(* ---------------------------------------------------------------- LZ4_attach_HC_dictionary, LZ4_saveDictHC *)
+Lemma hs_attach_ok c d :
+  hs_ok c -> (match d with Some ds => d_ok (hs_core ds) | None => True end) -> hs_ok (hs_attach c d).
+Proof. intros (K & _) P. unfold hs_attach. split; [exact K|]. cbn [hs_dctx]. destruct d; exact P. Qed.
+
+Lemma hs_saveDict_ok m c a n :
+  hmem_ok m -> hs_ok c -> 0 < a ->
+  let m' := fst (fst (hs_saveDict m c a n)) in let c' := snd (fst (hs_saveDict m c a n)) in let r := snd (hs_saveDict m c a n) in
+  hmem_ok m' /\ hs_ok c' /\ k_dirty (hs_core c') = k_dirty (hs_core c) /\ k_level (hs_core c') = k_level (hs_core c) /\
+  hs_dctx c' = hs_dctx c /\ 0 <= r <= K64 /\
+  (k_prefixStart (hs_core c) = 0 -> c' = c /\ m' = m /\ r = 0) /\
+  (k_prefixStart (hs_core c) <> 0 ->
+   r <= k_end (hs_core c) - k_prefixStart (hs_core c) /\
+   k_prefixStart (hs_core c') = a /\ k_end (hs_core c') = a + r /\ k_lowLimit (hs_core c') = k_dictLimit (hs_core c') /\
+   k_endIdx (hs_core c') = k_endIdx (hs_core c) /\
+   m' = (if r >? 0 then blit m (k_end (hs_core c) - r) m a (Z.to_nat r) else m)).
+Proof.
+  intros Hm (K & D) Ha. cbv zeta. unfold hs_saveDict. cbv zeta.
+  pose proof K as (L & P & E & A & T).
+  destruct (k_prefixStart (hs_core c) =? 0) eqn:E0; cbn [fst snd].
+  { split; [exact Hm|]. split; [exact (conj K D)|]. split; [reflexivity|]. split; [reflexivity|]. split; [reflexivity|].
+    split; [unfold K64; lia|]. split; [intros _; repeat split; reflexivity | intros; lia]. }
+  remember (hs_core c) as k eqn:Ek.
+  specialize (A ltac:(lia)).
+  remember (k_end k - k_prefixStart k) as pl eqn:Epl.
+  remember (if n >? K64 then K64 else n) as d1 eqn:Ed1.
+  remember (if d1 <? 4 then 0 else d1) as d2 eqn:Ed2.
+  remember (if d2 >? pl then pl else d2) as ds eqn:Eds.
+  assert (Hds : 0 <= ds <= K64 /\ ds <= pl).
+  { rewrite Eds, Ed2, Ed1. unfold K64 in *. destruct (n >? 65536) eqn:E1; [destruct (65536 <? 4) eqn:E2 | destruct (n <? 4) eqn:E2];
+      match goal with |- context [if ?b >? pl then _ else _] => destruct (b >? pl) eqn:E3 end; lia. }
+  unfold k_endIdx, EMAX, K64 in *.
+  assert (U1 : u32 pl = pl) by (apply u32s; lia). rewrite U1.
+  assert (U2 : u32 (pl + k_dictLimit k) = pl + k_dictLimit k) by (apply u32s; lia). rewrite U2.
+  assert (U3 : u32 (pl + k_dictLimit k - ds) = pl + k_dictLimit k - ds) by (apply u32s; lia). rewrite U3.
+  replace (a =? 0) with false by lia. cbn [hs_core hs_dctx k_dirty k_level k_prefixStart k_end k_lowLimit k_dictLimit].
+  split.
+  { destruct (ds >? 0); [|exact Hm]. unfold blit. intros x. apply store_list_ok; [exact Hm | apply load_list_ok; exact Hm]. }
+  split.
+  { split; [|exact D]. cbn [hs_core]. unfold k_ok, k_endIdx, tabs_below, EMAX, K64. cbn [k_lowLimit k_dictLimit k_prefixStart k_end k_dirty k_h4 k_h8].
+    split; [lia|]. split; [lia|]. split; [lia|]. split; [intros; lia|].
+    intros Hdy. specialize (T Hdy). unfold tabs_below in T.
+    replace (pl + k_dictLimit k - ds + (a + ds - a)) with (k_dictLimit k + (k_end k - k_prefixStart k)) by lia. exact T. }
+  split; [reflexivity|]. split; [reflexivity|]. split; [reflexivity|]. split; [lia|].
+  split; [intros; lia|]. intros _.
+  split; [lia|]. split; [reflexivity|]. split; [reflexivity|]. split; [reflexivity|]. split; [lia|].
+  replace (k_end k - ds) with (k_end k - ds) by reflexivity. reflexivity.
+Qed.
+
+(* ================================================================ every operation, any history *)
+Definition hop_pre (st : mem * hsctx) (o : hop) : Prop :=
+  match o with
+  | HWrite a bs => list_ok bs
+  | HLoadDict a n => 0 <= n /\ 0 <= a
+  | HAttach (Some d) => d_ok (hs_core d)
+  | HContinue src n cap | HContinueDestSize src n cap =>
+    k_dirty (hs_core (snd st)) = false /\ 0 < src /\ 0 <= n < 2147483648 /\ 0 <= cap
+  | HSaveDict a n => 0 < a
+  | HFastReset src n cap l | HExtState src n cap l => 0 < src /\ 0 <= n < 2147483648 /\ 0 <= cap
+  | _ => True
+  end.
+
+Definition hstate_inv (st : mem * hsctx) : Prop := hmem_ok (fst st) /\ hs_ok (snd st).
+
+Lemma of_res_inv m r st' x : of_res m r = Some (st', x) -> exists ret consumed out hw c', r = Some (HRes ret consumed out hw c') /\ st' = (m, c') /\ x = (ret, out, consumed).
+Proof.
+  unfold of_res. destruct r as [[ret consumed out hw c']|]; [|discriminate].
+  intros H. injection H as <- <-. exists ret, consumed, out, hw, c'. repeat split; reflexivity.
+Qed.
+
+Lemma hstep_inv st o st' x : hstate_inv st -> hop_pre st o -> hstep st o = Some (st', x) -> hstate_inv st'.
+Proof.
+  destruct st as [m c]. intros (Hm & K) P. unfold hstate_inv in *. cbn [fst snd] in *.
+  destruct o; cbn [hstep hop_pre snd] in *.
+  - intros H. injection H as <- <-. cbn [fst snd]. split; [intros y; apply store_list_ok; assumption | exact K].
+  - intros H. injection H as <- <-. split; [exact Hm | exact hs_init_ok].
+  - intros H. injection H as <- <-. split; [exact Hm | apply hs_resetStream_ok].
+  - intros H. injection H as <- <-. split; [exact Hm | apply hs_resetFast_ok; exact K].
+  - intros H. injection H as <- <-. split; [exact Hm | apply hs_setLevel_ok; exact K].
+  - destruct (hs_loadDict m c a n) as [[c' r]|] eqn:E; [|discriminate]. intros H. injection H as <- <-.
+    destruct P as (P1 & P2). split; [exact Hm | apply (hs_loadDict_ok m c a n c' r P1 P2 E)].
+  - intros H. injection H as <- <-. split; [exact Hm | apply hs_attach_ok; [exact K | destruct d; [exact P | exact I]]].
+  - intros H. apply of_res_inv in H. destruct H as (ret & consumed & out & hw & c' & E & -> & _).
+    destruct P as (Pd & Ps & Pn & Pc). unfold hs_continue in E.
+    destruct (hs_continue_generic_sound m c src n cap _ ret consumed out hw c' Hm K Pd Ps Pn Pc E) as (ke & _ & _ & _ & Q).
+    split; [exact Hm | apply Q].
+  - intros H. apply of_res_inv in H. destruct H as (ret & consumed & out & hw & c' & E & -> & _).
+    destruct P as (Pd & Ps & Pn & Pc). unfold hs_continue_destSize in E.
+    destruct (hs_continue_generic_sound m c src n target _ ret consumed out hw c' Hm K Pd Ps Pn Pc E) as (ke & _ & _ & _ & Q).
+    split; [exact Hm | apply Q].
+  - pose proof (hs_saveDict_ok m c a n Hm K P) as S. cbv zeta in S.
+    destruct (hs_saveDict m c a n) as [[m' c'] r]. cbn [fst snd] in S. intros H. injection H as <- <-.
+    split; apply S.
+  - intros H. apply of_res_inv in H. destruct H as (ret & consumed & out & hw & c' & E & -> & _).
+    destruct P as (Ps & Pn & Pc).
+    pose proof (hs_fastReset_sound m c src n cap level ret consumed out hw c' Hm K Ps Pn Pc E) as Q. cbv zeta in Q.
+    split; [exact Hm | apply Q].
+  - intros H. apply of_res_inv in H. destruct H as (ret & consumed & out & hw & c' & E & -> & _).
+    destruct P as (Ps & Pn & Pc). unfold hs_extState in E.
+    pose proof (hs_fastReset_sound m hs_init src n cap level ret consumed out hw c' Hm hs_init_ok Ps Pn Pc E) as Q. cbv zeta in Q.
+    split; [exact Hm | apply Q].
+Qed.
+
+(* a run inside the model: every step is defined *)
+Fixpoint hrun (st : mem * hsctx) (ops : list hop) : option (mem * hsctx) :=
+  match ops with
+  | [] => Some st
+  | o :: r => match hstep st o with Some (st', _) => hrun st' r | None => None end
+  end.
+Fixpoint hops_pre (st : mem * hsctx) (ops : list hop) : Prop :=
+  match ops with
+  | [] => True
+  | o :: r => hop_pre st o /\ match hstep st o with Some (st', _) => hops_pre st' r | None => True end
+  end.
+
+Theorem hs_inv_run : forall ops st st', hstate_inv st -> hops_pre st ops -> hrun st ops = Some st' -> hstate_inv st'.
+Proof.
+  induction ops as [|o r IH]; intros st st' I P; cbn [hrun hops_pre] in *.
+  - intros H. injection H as <-. exact I.
+  - destruct P as (P1 & P2). destruct (hstep st o) as [[st1 x]|] eqn:E; [|discriminate].
+    apply IH; [apply (hstep_inv st o st1 x I P1 E) | exact P2].
+Qed.
